@@ -458,9 +458,11 @@ def solve(conds, timeout_s=60, exp_axioms=True, pair_axioms=True, want_smt2=Fals
         s.add(*low.side)
         s.add(*zs)
         s.add(*extra)
-        smt2 = s.to_smt2() if want_smt2 else None
         r = s.check()
         verdict = str(r)
+        # exported only after the verdict (measured: exporting before check() changed z3's search on one C07 query from
+        # unsat in 15 s to no answer in 600 s) and only for the verdict the second solvers are asked to confirm
+        smt2 = s.to_smt2() if (want_smt2 and verdict == "unsat") else None
         stats = {"atoms": len(low.atoms), "side": len(low.side), "level": lv}
         if verdict == "unsat":
             return Result("unsat", time.time() - t0, {}, smt2, stats)
